@@ -1205,4 +1205,104 @@ theorem aux_lines_valid (sp : Bool) (brk : Nat → Bool) (hb : ∀ x, brk x = tr
         rw [this] at hl
         exact key l hl
 
+/-! ### Part G: cutting a content at a line break (`rel_seek`) -/
+
+/-- cutting the text in front of a break character `x`: the lines of the whole are the lines of the
+    left part, then possibly one empty line, then the lines after `x` -/
+theorem aux_cut_at_break (brk : Nat → Bool) (x : Nat) (b' : List Nat) (hx : brk x = true) (a : List Nat) :
+    ∀ f, ∃ E : List (List Nat), (E = [] ∨ E = [[]]) ∧
+      splitlinesAux brk f (a ++ x :: b') = splitlinesAux brk f a ++ E ++ splitlinesAux brk (x == 13) b' := by
+  induction a with
+  | nil =>
+    intro f
+    by_cases h1 : (f && x == 10) = true
+    · refine ⟨[], Or.inl rfl, ?_⟩
+      have hx10 : x = 10 := by simp at h1; exact h1.2
+      subst hx10
+      have hf : f = true := by simp at h1; exact h1
+      subst hf
+      simp only [List.nil_append]
+      rw [aux_cons]
+      simp [aux_nil]
+    · have h1' : (f && x == 10) = false := by simpa using h1
+      refine ⟨[[]], Or.inr rfl, ?_⟩
+      simp only [List.nil_append]
+      rw [aux_cons]
+      simp [h1', hx, aux_nil]
+  | cons c cs ih =>
+    intro f
+    simp only [List.cons_append]
+    by_cases h1 : (f && c == 10) = true
+    · obtain ⟨E, hE, h⟩ := ih false
+      refine ⟨E, hE, ?_⟩
+      rw [aux_cons, aux_cons]
+      simp only [h1, if_true]
+      exact h
+    · have h1' : (f && c == 10) = false := by simpa using h1
+      by_cases hc : brk c = true
+      · obtain ⟨E, hE, h⟩ := ih (c == 13)
+        refine ⟨E, hE, ?_⟩
+        rw [aux_cons, aux_cons]
+        simp only [h1', hc, if_true, Bool.false_eq_true, if_false]
+        rw [h]
+        simp
+      · by_cases hcs : cs = []
+        · subst hcs
+          refine ⟨[], Or.inl rfl, ?_⟩
+          rw [aux_cons, aux_cons]
+          simp only [h1', hc, Bool.false_eq_true, if_false, List.nil_append]
+          rw [aux_cons]
+          simp [hx, aux_nil, consHead]
+        · obtain ⟨E, hE, h⟩ := ih false
+          refine ⟨E, hE, ?_⟩
+          rw [aux_cons, aux_cons]
+          simp only [h1', hc, Bool.false_eq_true, if_false]
+          rw [h, List.append_assoc, consHead_append _ _ _ (aux_ne_nil brk cs hcs), List.append_assoc]
+
+theorem filterMap_E (parse : List Nat → Except ε α) (E : List (List Nat)) (hE : E = [] ∨ E = [[]]) :
+    E.filterMap (objOf parse) = [] := by
+  rcases hE with rfl | rfl
+  · rfl
+  · simp [objOf_nil]
+
+/-- hence the objects of a content are those of the part before a line break followed by those of
+    the part from the line break on -/
+theorem filterMap_cut_at_break (parse : List Nat → Except ε α) (a : List Nat) (x : Nat) (b' : List Nat)
+    (hx : bytesBreak x = true) :
+    (bytesSplitlines (a ++ x :: b')).filterMap (objOf parse) =
+      (bytesSplitlines a).filterMap (objOf parse) ++ (bytesSplitlines (x :: b')).filterMap (objOf parse) := by
+  unfold bytesSplitlines
+  obtain ⟨E, hE, h⟩ := aux_cut_at_break bytesBreak x b' hx a false
+  rw [h]
+  have h2 : splitlinesAux bytesBreak false (x :: b') = [] :: splitlinesAux bytesBreak (x == 13) b' := by
+    rw [aux_cons]; simp [hx]
+  rw [h2]
+  simp [List.filterMap_append, filterMap_E parse E hE, objOf_nil]
+
+theorem firstBreak_spec (s : List Nat) (i : Nat) (h : firstBreak s = some i) :
+    (∃ x b', s.drop i = x :: b' ∧ bytesBreak x = true) ∧ NoBrk bytesBreak (s.take i) := by
+  induction s generalizing i with
+  | nil => simp [firstBreak] at h
+  | cons c cs ih =>
+    rw [firstBreak] at h
+    by_cases hc : bytesBreak c = true
+    · simp only [hc, if_true, Option.some.injEq] at h
+      subst h
+      exact ⟨⟨c, cs, rfl, hc⟩, fun _ hd => by simp at hd⟩
+    · have hc' : bytesBreak c = false := by simpa using hc
+      simp only [hc', Bool.false_eq_true, if_false] at h
+      cases hj : firstBreak cs with
+      | none => rw [hj] at h; simp at h
+      | some j =>
+      rw [hj] at h
+      simp only [Option.map_some, Option.some.injEq] at h
+      subst h
+      obtain ⟨h1, h2⟩ := ih j hj
+      refine ⟨by simpa using h1, ?_⟩
+      intro d hd
+      simp only [List.take_succ_cons, List.mem_cons] at hd
+      rcases hd with rfl | hd
+      · simpa using hc
+      · exact h2 d hd
+
 end C19
